@@ -363,6 +363,10 @@ class MyPyAstVisitor:
         if len(self.__declaration_stack) > 0:
             parent = self.__declaration_stack[-1]
 
+            if isinstance(parent, Enum):
+                # Safe-DS enums have no methods
+                return
+
             # Add the data of the function and its results to the API class
             self.api.add_function(function)
             self.api.add_results(function.results)
@@ -1206,6 +1210,10 @@ class MyPyAstVisitor:
             raise ValueError("A Mypy file (module) should be defined.")
 
         parent = self.__declaration_stack[-1]
+
+        if isinstance(parent, Enum):
+            # Methods of enums are not part of the API model (see leave_funcdef)
+            return False
 
         if not isinstance(parent, Module | Class) and not (isinstance(parent, Function) and parent.name == "__init__"):
             raise TypeError(
